@@ -22,7 +22,7 @@ SPEC = {
                     "vlib/avm.py callsub/retsub/proto/frame_dig/frame_bury semantics"],
     "min_evaluations": {"quick": 8000, "thorough": 100000},
     "must_reach": ["agree_approve", "recursion_self", "recursion_mutual", "recursion_mutual_diffkind", "conv_scratch", "conv_frame",
-                   "byref_recursion_rejected", "calls_completed", "ladder_cases", "abi_recursion_probe_ok", "recipes_byref_family", "byref_forwarded"],
+                   "byref_recursion_rejected", "calls_completed", "ladder_cases", "abi_recursion_probe_ok", "recipes_byref_family", "recipes_recursive_byref_local", "byref_forwarded"],
     "shard_timeout": {"quick": 2400, "thorough": 14400},
 }
 
@@ -231,6 +231,58 @@ def byref_family(rng):
     return {"mode": "app", "vars": vars_, "subs": subs, "main": main, "final": ["int", 1]}
 
 
+def recursive_byref_local(rng):
+    """A recursive routine (no by-reference parameter of its own) keeps locals, hands some of them by reference to non-recursive
+    helpers - before and/or after its recursive call - and observes all of them after the recursive call returned: each activation
+    must see its own values.  Variants: one or two mutually recursive walkers, helpers that forward the reference, locals of both
+    types."""
+    def B(t):
+        return ["bytes", t.encode().hex()]
+    subs = []
+    # helpers: 0 = bump (u ref), 1 = tagb (b ref), 2 = forwarder (u ref -> bump)
+    subs.append({"name": "bump", "params": [{"k": "ref", "t": "u"}], "ret": "n", "rec": False, "locals": [], "retexpr": None,
+                 "body": [["pstore", 0, ["bin", "+", ["pload", 0], ["int", 1]]]]})
+    subs.append({"name": "tagb", "params": [{"k": "ref", "t": "b"}, {"k": "u"}], "ret": "u", "rec": False, "locals": [],
+                 "body": [["pstore", 0, ["nary", "concat", [["pload", 0], ["itob", ["param", 1]]]]]], "retexpr": ["len", ["pload", 0]]})
+    subs.append({"name": "fwd", "params": [{"k": "u"}, {"k": "ref", "t": "u"}], "ret": "n", "rec": False, "locals": [], "retexpr": None,
+                 "body": [["callstmt", 0, [["refparam", 1]]], ["pstore", 1, ["bin", "+", ["pload", 1], ["param", 0]]]]})
+    nwalk = rng.choice([1, 1, 2])
+    for w in range(nwalk):
+        me = 3 + w
+        other = 3 + (w + 1) % nwalk
+        lu, lb, lt = "w%d.U" % w, "w%d.B" % w, "w%d.T" % w
+        locs = [{"id": lu, "t": "u", "kind": "sv"}, {"id": lb, "t": "b", "kind": "sv"}, {"id": lt, "t": "u", "kind": "sv"}]
+        body = [["store", lu, ["bin", "+", ["bin", "*", ["param", 0], ["int", 100]], ["int", 7 + w]]],
+                ["store", lb, ["nary", "concat", [B("b%d" % w), ["itob", ["param", 0]]]]],
+                ["store", lt, ["int", 0]]]
+
+        def helper_calls():
+            out = []
+            for _ in range(rng.choice([1, 1, 2])):
+                h = rng.choice([0, 0, 1, 2])
+                if h == 0:
+                    out.append(["callstmt", 0, [["ref", lu]]])
+                elif h == 1:
+                    out.append(["store", lt, ["bin", "+", ["load", lt], ["call", 1, [["ref", lb], ["param", 0]]]]])
+                else:
+                    out.append(["callstmt", 2, [["int", rng.randrange(2, 9)], ["ref", lu]]])
+            return out
+        when = rng.choice(["before", "before", "after", "both"])
+        if when in ("before", "both"):
+            body += helper_calls()
+        rec = ["pop", ["call", other, [["bin", "-", ["param", 0], ["int", 1]]]]] if rng.random() < .5 else \
+              ["store", lt, ["bin", "+", ["load", lt], ["call", other, [["bin", "-", ["param", 0], ["int", 1]]]]]]
+        body.append(["if", ["bin", ">", ["param", 0], ["int", 0]], rec, None])
+        if when in ("after", "both"):
+            body += helper_calls()
+        body.append(["log", ["nary", "concat", [B("w%d:" % w), ["itob", ["param", 0]], ["itob", ["load", lu]], ["load", lb], ["itob", ["load", lt]]]]])
+        subs.append({"name": "walk%d" % w, "params": [{"k": "u"}], "ret": "u", "rec": True, "locals": locs, "body": body,
+                     "retexpr": ["bin", "%", ["bin", "+", ["load", lu], ["load", lt]], ["int", 2**30]]})
+    depth = ["bin", "%", ["btoi", ["txna", "ApplicationArgs", 0]], ["int", 4]]
+    main = [["log", ["itob", ["call", 3, [depth]]]]]
+    return {"mode": "app", "vars": [], "subs": subs, "main": main, "final": ["int", 1]}
+
+
 def nonlocal_witness(kind):
     """Known finding: Return reached inside a subroutine while operands of an enclosing expression are pending."""
     sub = {"name": "w", "params": [{"k": "u"}], "ret": "u", "locals": [], "rec": False, "body": [],
@@ -431,9 +483,13 @@ def run_shard(shard):
             recipe = mutual_family(rng)
             origin = "mutual_family"
             version = max(version, 5)
-        elif r < .9:
+        elif r < .87:
             recipe = byref_family(rng)
             origin = "byref_family"
+            version = max(version, 5)
+        elif r < .93:
+            recipe = recursive_byref_local(rng)
+            origin = "recursive_byref_local"
             version = max(version, 5)
         else:
             n = rng.randrange(0, 13)
